@@ -108,8 +108,8 @@ Definition prop_of (name : string) : option cprop :=
 
 (* int(text) in base 10 on ASCII text: optional sign, digits, single underscores between digits *)
 Definition digit_of (c : ascii) : option Z :=
-  let n := nat_of_ascii c in
-  if ((48 <=? n)%nat && (n <=? 57)%nat)%bool then Some (Z.of_nat (n - 48)) else None.
+  let n := N_of_ascii c in
+  if ((48 <=? n)%N && (n <=? 57)%N)%bool then Some (Z.of_N (n - 48)) else None.
 Inductive istate := IStart | IDigit | IUnder.
 Fixpoint int_digits (acc : Z) (stt : istate) (s : string) : option Z :=
   match s with
@@ -249,14 +249,14 @@ Inductive outcome := Started (s : started) | Crashed (e : pyexn).
 (* `python -m ka.cli …`: importing ka.cli imports ka.units, whose load_currency_data() makes the
    first ka.config.get (-> read_config); registration follows; then main() calls read_config
    again; then the expression is evaluated. *)
-Definition startup (pf : pyfloat_t) (fs : filesys) : outcome :=
+Definition startup (pf : pyfloat_t) (nn : namenorm_t) (fs : filesys) : outcome :=
   match read_config (fs PConfig) [] with
   | PRaise e => Crashed e
   | POk (c1, w1) =>
     match load_currency_data pf c1 fs with
     | PRaise e => Crashed e
     | POk (t, from_file, w2) =>
-      match registry_for t (cfg_str c1 "base-currency") with
+      match registry_for nn t (cfg_str c1 "base-currency") with
       | PRaise e => Crashed e
       | POk reg =>
         match read_config (fs PConfig) c1 with
